@@ -79,15 +79,24 @@ def err_name(prog, rv):
         return f"{rv.kind.upper()}: {rv.msg}"
     if isinstance(rv, Lazy):
         return 'Lazy'
-    if rv.disc == 0:
+    if isinstance(rv.disc, int) and rv.disc == 0:
         return 'Ok'
-    e = rv.payloads[1].fields[0]
+    if not isinstance(rv.disc, int):
+        return 'Result(?)'
+    e = err_value(rv)
     vs = prog.types.variants('errors::Error')
+    if isinstance(e, Lazy):
+        return 'Err(' + e.name + ')'
     return vs[e.disc] if isinstance(e.disc, int) else 'Err(?)'
 
 
 def err_value(rv):
-    return rv.payloads[1].fields[0]
+    pay = rv.payloads.get(1)
+    if pay is None:
+        pay = rv.payloads[1] = Agg({}, '', f"{rv.origin}#1")
+    if 0 not in pay.fields:
+        pay.fields[0] = Lazy('errors::Error', f"{pay.origin}.0")
+    return pay.fields[0]
 
 
 def variant_name(prog, v, ty):
@@ -212,3 +221,98 @@ def explore_step(ctx, ex, prog, shapeA='None', consumersA=1, consumersB=1, secon
     for (s, rv) in res:
         out.append((s, s.roots['w'], rv))
     return fs, a, b, infoA, out
+
+
+def same_value(a, b):
+    """z3 condition: two engine values denote the same Rust value (leaves compared in SMT; lazily materialised
+    aggregates are equal when they stem from the same symbolic origin)"""
+    if isinstance(a, Int) and isinstance(b, Int):
+        return a.bv == b.bv if a.width == b.width else z3.BoolVal(False)
+    if isinstance(a, Bool) and isinstance(b, Bool):
+        return a.b == b.b
+    if isinstance(a, Str) and isinstance(b, Str):
+        return a.s == b.s
+    if isinstance(a, Unit) and isinstance(b, Unit):
+        return z3.BoolVal(True)
+    if isinstance(a, Lazy) and isinstance(b, Lazy):
+        return z3.BoolVal(a.name == b.name)
+    if isinstance(a, (Agg, Enum)) and isinstance(b, (Agg, Enum)) and a.origin == b.origin:
+        return z3.BoolVal(True)
+    if isinstance(a, Lazy) and isinstance(b, (Agg, Enum)):
+        return z3.BoolVal(a.name == b.origin)
+    if isinstance(b, Lazy) and isinstance(a, (Agg, Enum)):
+        return z3.BoolVal(b.name == a.origin)
+    if isinstance(a, Agg) and isinstance(b, Agg):
+        if a.ty == 'Box' and b.ty == 'Box':
+            return same_value(a.fields[0].fields[0].cell.value, b.fields[0].fields[0].cell.value)
+        if set(a.fields) != set(b.fields):
+            return z3.BoolVal(False)
+        return z3.And(*[same_value(a.fields[k], b.fields[k]) for k in a.fields]) if a.fields else z3.BoolVal(True)
+    if isinstance(a, Enum) and isinstance(b, Enum):
+        c = [a.disc_bv() == b.disc_bv()]
+        for k in set(a.payloads) & set(b.payloads):
+            c.append(z3.Implies(a.disc_bv() == k, same_value(a.payloads[k], b.payloads[k])))
+        return z3.And(*c)
+    if isinstance(a, Opaque) and isinstance(b, Opaque):
+        return z3.BoolVal(a is b)
+    return z3.BoolVal(False)
+
+
+def slot_entry(w, name):
+    """[key, Cell(value), present] of a named slot in the slots map (by its symbolic id handle)"""
+    cid = w.slots[name]['id']
+    for e in w.slots_map.entries:
+        if z3.eq(e[0].bv, cid):
+            return e
+    return None
+
+
+def slot_snapshot(w, name):
+    """observable state of a slot for frame conditions: queue lengths, sender counts, presence"""
+    info = w.slots[name]
+    e = slot_entry(w, name)
+    snap = {'present': str(z3.simplify(e[2])) if e else None, 'reply': len(info['reply'].queue), 'reply_senders': info['reply'].senders,
+            'consumers': {k: (len(cq.queue), cq.senders) for k, (t, cq) in info['consumers'].items()},
+            'ret': (len(info['ret'].queue), info['ret'].senders) if info['ret'] else None,
+            'conf': (len(info['conf'].queue), info['conf'].senders) if info['conf'] else None}
+    if e is not None and not isinstance(e[1].value, Moved):
+        sv = e[1].value
+        coll = sv.fields[2]
+        snap['collector'] = repr(coll.fields[1].disc) if isinstance(coll.fields[1], Enum) else repr(coll.fields[1])
+        snap['ntags'] = len([x for x in sv.fields[3].entries if not z3.is_false(z3.simplify(x[2]))])
+    return snap
+
+
+def error_fields(prog, e, variant):
+    """fields of a struct-like Error variant as dict name->value (names scraped from src/errors.rs)"""
+    vs = prog.types.variants('errors::Error')
+    pay = e.payloads[vs.index(variant)]
+    names = error_variant_fields(prog, variant)
+    return {n: pay.fields[i] for i, n in enumerate(names)}
+
+
+_ERR_FIELDS = {}
+
+
+def error_variant_fields(prog, variant):
+    if not _ERR_FIELDS:
+        import re as _re
+        src = prog.src('src/errors.rs')
+        m = _re.search(r'pub enum Error\s*\{', src)
+        depth, i = 0, m.end() - 1
+        start = i
+        while True:
+            if src[i] == '{':
+                depth += 1
+            elif src[i] == '}':
+                depth -= 1
+                if depth == 0:
+                    break
+            i += 1
+        body = src[start + 1:i]
+        body = _re.sub(r'//[^\n]*', '', body)
+        body = _re.sub(r'#\[[^\]]*\]', '', body, flags=_re.S)
+        for mm in _re.finditer(r'(\w+)\s*\{([^}]*)\}', body):
+            fields = [f.split(':')[0].strip() for f in mm.group(2).split(',') if ':' in f]
+            _ERR_FIELDS[mm.group(1)] = fields
+    return _ERR_FIELDS.get(variant, [])
